@@ -314,15 +314,17 @@ func (dsc *Discipline[Type]) waitZeroActual() {
 	}
 }
 
-func (dsc *Discipline[Type]) getOneFeedback() {
+func (dsc *Discipline[Type]) getOneFeedback() bool {
 	select {
 	case <-dsc.breaker.IsBreaked():
-		return
+		return false
 	case <-dsc.opts.Ctx.Done():
-		return
+		return false
 	case priority := <-dsc.opts.Feedback:
 		dsc.decreaseActual(priority)
 	}
+
+	return true
 }
 
 func (dsc *Discipline[Type]) getLimitedFeedback() {
@@ -376,13 +378,14 @@ func (dsc *Discipline[Type]) isInputExists(priority uint) bool {
 func (dsc *Discipline[Type]) base() (uint, error) {
 	processed := uint(0)
 
-	if err := dsc.waitCalcTactic(); err != nil {
+	proceed, err := dsc.waitCalcTactic()
+	if err != nil || !proceed {
 		return processed, err
 	}
 
 	processed += dsc.prioritize()
 
-	proceed, err := dsc.recalcTactic()
+	proceed, err = dsc.recalcTactic()
 	if err != nil {
 		return processed, err
 	}
@@ -396,18 +399,20 @@ func (dsc *Discipline[Type]) base() (uint, error) {
 	return processed, nil
 }
 
-func (dsc *Discipline[Type]) waitCalcTactic() error {
+func (dsc *Discipline[Type]) waitCalcTactic() (bool, error) {
 	for {
 		proceed, err := dsc.calcTactic()
 		if err != nil {
-			return err
+			return false, err
 		}
 
 		if proceed {
-			return nil
+			return true, nil
 		}
 
-		dsc.getOneFeedback()
+		if received := dsc.getOneFeedback(); !received {
+			return false, nil
+		}
 	}
 }
 
